@@ -95,7 +95,7 @@ func init() {
 			la := NewLockAnalysis(w)
 			r.Rule("R14.1", 1, "cancel on every path past the gate")
 			r.Rule("R14.2", 2, "self-removal from both tables on every path past the gate")
-			r.Rule("R14.3", 3, "insertions paired with deletions")
+			r.Rule("R14.3", 2, "insertions paired with deletions")
 			r.Rule("R14.4", 3, "tables reset")
 			r.Rule("R14.5", 5, "ownership of cancel")
 			r.Rule("R14.6", 2, "watcher blocks only on this context's Done()")
